@@ -83,7 +83,7 @@ extern "C" void *sim_malloc(size_t size, const char *file, const char *func, int
     }
     void *p = malloc(size);
     if (!p) { fprintf(stderr, "simrt: host malloc(%zu) failed\n", size); _exit(3); }
-    fill_garbage(t, p, size);
+    if (growth && t->clean_growth) memset(p, 0, size); else fill_garbage(t, p, size);
     AllocRec r{t->next_alloc_id++, size, file, func, line, t->cur_op, caller, growth};
     t->live[p] = r;
     t->n_alloc++; t->bytes_alloc += size;
